@@ -155,3 +155,39 @@ def rule_det_state(ctx):
     for e in ents:
         ctx.instance(f"entry:{e['path']}", nontrivial=True)
     ctx.floor("proc-macro entry points", len(ents), 50)
+
+
+def rule_det_address(ctx):
+    """DET-ADDR: no decision, key or order in impl/src depends on a memory address: no `as *const _` / `as *mut _` cast, `ptr::addr_of!`, `core::ptr::eq`-keyed collection, `{:p}` formatting or `.as_ptr()` used as a value. Addresses differ from one rustc process to the next (ASLR, allocation history), so anything sorted, hashed or de-duplicated by them makes the expansion differ between compilations of the same source. Closed set, expected empty; positive control rules/positive/detaddr.rs."""
+    import os
+
+    def sites(files, prefix):
+        out = []
+        for rel, f in sorted(files.items()):
+            if prefix and not rel.startswith(prefix):
+                continue
+            for fn in A.functions(f):
+                if fn.block is None:
+                    continue
+                for c, _ in A.find(fn.block, "Expr::Cast"):
+                    if A.kind(c["ty"]) == "Type::Ptr":
+                        out.append((f, fn, c, "cast to a raw pointer"))
+                for mc, _ in A.find(fn.block, "Expr::MethodCall"):
+                    if mc["method"]["sym"] in ("as_ptr", "as_mut_ptr", "addr", "expose_addr"):
+                        out.append((f, fn, mc, f"`.{mc['method']['sym']}()`"))
+                for m_, _ in A.macros(fn.block, ("addr_of", "addr_of_mut")):
+                    out.append((f, fn, m_, "`addr_of!`"))
+        return out
+
+    got = sites(ctx.files, "impl/src/")
+    for f, fn, node, what in got:
+        key = f"{f.rel}::{fn.qual}:{what}"
+        ctx.instance(f"det-addr:{key}")
+        ctx.report(f"det-addr:{key}", ctx.where(f, node), f"`{fn.qual}` takes a memory address ({what}): a value, key or order derived from it changes from one compiler process to the next, so the same source expands differently", {})
+    ctx.cur.instances += 1
+    ctx.note(f"{len(got)} address-taking sites")
+    pos = os.path.join(os.path.dirname(os.path.dirname(os.path.dirname(os.path.dirname(os.path.abspath(__file__))))), "rules", "positive", "detaddr.rs")
+    pc = sites(A.load_files([pos]), None)
+    ctx.instance("det-addr:positive-control")
+    if len(pc) != 2:
+        ctx.report("det-addr:positive-control", "rules/positive/detaddr.rs", f"the positive control yields {len(pc)} sites instead of 2", {})
